@@ -37,7 +37,7 @@ RULE = (
     "points of two seed documents, a stride of sample truncations; thorough: all). distinct = distinct faulted "
     "byte strings; non-trivial = the faulted bytes differ from the seed document."
 )
-COMPONENTS_REAL = ["all of pdfminer reachable from high_level.extract_text / extract_pages / extract_text_to_fp(xml) / extract_text_to_fp(html) / extract_text_to_fp(output_dir) / a page-by-page loop that continues after a failed page incl. ImageWriter, BMPWriter, JBIG2 reader/writer, CCITT decoder", "zlib", "the real file system under a per-case scratch directory"]
+COMPONENTS_REAL = ["all of pdfminer reachable from high_level.extract_text / extract_pages / extract_text_to_fp(xml) / extract_text_to_fp(html) / extract_text_to_fp(output_dir) / a page-by-page loop that continues after a failed page / extract_text under settings.STRICT incl. ImageWriter, BMPWriter, JBIG2 reader/writer, CCITT decoder", "zlib", "the real file system under a per-case scratch directory"]
 COMPONENTS_STUB = ["Pillow is absent: export formats that need it answer with the documented ImportError", "file-size cap RLIMIT_FSIZE 64 MB (simulated full disk)", "file object: io.BytesIO", "step clock: sys.monitoring PY_START|JUMP on pdfminer code objects", "address-space cap RLIMIT_AS", "producer: sim.seeds / sim.pdfwriter"]
 ASSUMPTIONS = [
     "documented exception family = subclasses of pdfminer.psexceptions.PSException (AssertionError is a violation)",
@@ -224,6 +224,13 @@ def payload_faults(seed):
                 yield ["cdict", kind, path, "variant", vname]
             if ckind == "dict":
                 yield ["cdict", kind, path, "remove", ""]
+        # entries a single-revision file does not have: /Prev and /XRefStm with every kind of value
+        if kind in ("trailer", "xref"):
+            for key in ("Prev", "XRefStm"):
+                for u in TYPES:
+                    yield ["cdict", kind, [key], "add", u]
+                for vname in VARIANTS:
+                    yield ["cdict", kind, [key], "addvariant", vname]
     # the tail of a container payload cut out of the file (later offsets go stale)
     for num, pos, n in seed.container_streams():
         for p in sorted(set(int(i * (n - 1) / 7) for i in range(8))) if n > 1 else []:
@@ -323,6 +330,8 @@ def apply_fault(seed, f):
                 set_path(d, path, lambda c, key: c.__setitem__(key, copy.deepcopy(SAMPLE[arg])))
             elif how == "variant":
                 set_path(d, path, lambda c, key: c.__setitem__(key, copy.deepcopy(VARIANTS[arg])))
+            elif how in ("add", "addvariant"):
+                d[path[0].encode()] = copy.deepcopy(SAMPLE[arg] if how == "add" else VARIANTS[arg])
             else:
                 set_path(d, path, lambda c, key: c.__delitem__(key))
 
@@ -578,6 +587,17 @@ def export_images(data):
 NOCACHE_FAULTS = ("ref", "xrefcycle", "prevloop", "xrefstmloop", "lengthref")
 
 
+def strict_extract(data):
+    """The library's strict setting turns tolerated oddities into errors - of the documented family."""
+    from pdfminer import settings
+
+    settings.STRICT = True
+    try:
+        extract_text(io.BytesIO(data))
+    finally:
+        settings.STRICT = False
+
+
 def page_by_page(data):
     """The caller's own loop over the pages, going on to the next page when one of them fails with a library error:
     what failed once may be asked for again (shared streams, fonts, forms) and must fail the same, documented way."""
@@ -623,6 +643,8 @@ def entry_points(data, seed_name="", fault=None):
     yield "extract_text", (lambda: extract_text(io.BytesIO(data)))
     if fault is not None and fault[0] != "truncate":
         yield "page-by-page loop", (lambda: page_by_page(data))
+    if fault is not None and fault[0] in ("replace", "variant", "remove", "ref"):
+        yield "extract_text under settings.STRICT", (lambda: strict_extract(data))
     yield "extract_pages", (lambda: list(extract_pages(io.BytesIO(data))))
 
     def xml():
